@@ -8,7 +8,11 @@ props = [json.loads(l) for l in open(os.path.join(HERE, 'properties.jsonl'))]
 
 CORE_NOTE = ('Trusted base: TLC; the single-stepping event loop harness/vloop.py; the projection harness/core_real.py. Bounded: program '
              'family x <=K requests x <=1 re-entrant request. Transfer to the implementation is by replaying every behaviour of the '
-             'dumped TLC state graph into the real plumpy.Process and comparing public projection + event log after every action.')
+             'dumped TLC state graph into the real plumpy.Process and comparing public projection + event log after every action; '
+             'plus random behaviours from tlc -simulate with a request budget far beyond the exhaustive bound (K+6 quick / K+12 thorough), '
+             'invariants evaluated on the way, each replayed the same way.')
+SIM = ' + tlc -simulate deep behaviours replayed'
+SUITE = ' + trace validation of every Process of the repository test-suite against ObservableTrace.tla'
 
 CHECKS = {
     'C01': dict(engine='ProcessCore', technique='TLA+ ProcessCore/ProcessProps, TLC exhaustive (invariant C01_Lifecycle, action property C01_TerminalFinal) + replay of all TLC behaviours into the real Process',
@@ -19,7 +23,7 @@ CHECKS = {
                 ref='5 C02', note=CORE_NOTE),
     'C03': dict(engine='ProcessCore', category='fault_enumeration',
                 technique='TLA+ ProcessFaults (fault plans + lockstep twin), TLC exhaustive over hook x occurrence x scenario, every faulty behaviour replayed into the real Process',
-                text='Complete enumeration of 31 hook points x occurrence 1..3 x scenario programs x <=K requests with one injected fault; outcome by hook class (user code -> EXCEPTED(F) closed, future raises F, task returns; listener -> state equal to a twin run; pause/play hook -> reported to requester, process live and killable); constructor faults checked directly.',
+                text='Complete enumeration of 32 hook points x occurrence 1..3 x scenario programs x <=K requests with one injected fault; outcome by hook class (user code -> EXCEPTED(F) closed, future raises F, task returns; listener -> state equal to a twin run; pause/play hook -> reported to requester, process live and killable); faults during construction (on_create, the first announcement) are part of the model: the exception reaches the caller and no process exists.',
                 ref='5 C03', note=CORE_NOTE + ' Faults are raised after the base implementation of a hook.'),
     'C04': dict(engine='ProcessCore', technique='TLA+ ProcessCore/ProcessProps, TLC exhaustive (KillNoRaise, KillNotLost, KillReply, KillText, KillFromAnywhere = Drain(Kill(S)) in every live state) + replay',
                 text='Every placement of <=K kill/pause/play/resume/cancel requests and a re-entrant kill from listeners; kill futures and is_killing compared on the real process.',
@@ -87,7 +91,7 @@ m = {
         'add_only': True,
     },
     'engines': [
-        {'name': 'ProcessCore', 'path': 'spec/ProcessCore.tla', 'serves_properties': ['C01', 'C02', 'C03', 'C04', 'C05', 'C06', 'C13'],
+        {'name': 'ProcessCore', 'path': 'spec/ProcessCore.tla', 'serves_properties': ['C01', 'C02', 'C03', 'C04', 'C05', 'C06', 'C07', 'C08', 'C10', 'C13', 'C16'],
          'kind_free_text': 'explicit TLA+ specification of the process control protocol + TLC + graph replay (harness/core_*.py)'},
         {'name': 'Outline', 'path': 'spec/Outline.tla', 'serves_properties': ['C09', 'C08', 'C07'],
          'kind_free_text': 'explicit TLA+ specification of the WorkChain outline interpreter (stepper tree vs structured semantics, stepper persistence)'},
@@ -109,7 +113,11 @@ m = {
 for p in props:
     pid = p['id']
     if pid in CHECKS:
-        c = CHECKS[pid]
+        c = dict(CHECKS[pid])
+        if c['engine'].startswith('ProcessCore'):
+            c['technique'] += SIM
+        if pid in ('C01', 'C02', 'C04', 'C05'):
+            c['technique'] += SUITE
         m['checks'].append({
             'property_id': pid,
             'quick_cmd': './check %s --tier quick' % pid,
